@@ -264,6 +264,31 @@ var props = []PropSpec{
 		},
 	},
 	{
+		ID: "C12", Pkg: "./c12", Level: "other", NoNativeBuild: true,
+		Explanation: "PARTIAL and bounded; originally planned as not applicable (DESIGN.md section 6) and claimed only for the slice that became encodable once schedule exploration existed (section 11.4). Decided: TWO clients. TCP: two in-memory connections, each carrying a template and two data messages with symbolic values, are served exactly as the accept loop serves them (hook VerifServeConn: wait-group accounting, handler goroutine, reader goroutine), a consumer goroutine drains the message channel, and Stop is called either after both streams ended or while they are in flight; UDP: datagrams of two clients are dispatched as the read loop does (hook VerifHandleUDPMessage: per-client goroutine and queue), in three arrival interleavings, then Stop. Under EVERY interleaving of the goroutines' synchronisation points (mutex lock/unlock with real blocking semantics, channel send/receive/close/select, WaitGroup) within a preemption budget of 1 (quick) / 2 (thorough): each connection's / client's messages are delivered exactly once (a prefix of them when Stop comes first), in the order sent, never mixed between clients (values are symbolic: an SMT obligation); the connection count / client table returns to zero; Stop returns (a hang is an engine deadlock outcome); every connection is closed; afterwards no interpreted goroutine of the process remains; no panic (e.g. send on a closed channel, negative WaitGroup counter). NOT covered and not claimed: kernel sockets and the listening socket, the accept loop itself, TLS, more than two clients, preemption inside code between synchronisation points (data races there are not detected: the race detector is not involved), abrupt mid-message close of a real socket, timing.",
+		Assumptions: []string{"in-memory net.Conn honouring the documented contract (Read returns the stream then io.EOF; after Close, Read errors)", "bounded preemptions; cooperative execution between synchronisation points", "the UDP client's idle ticker never fires"},
+		Harnesses: []HarnessSpec{
+			{Func: "Check_TwoClients", NoNative: true, Reach: []string{"all-delivered", "stopped-during-traffic"},
+				Tune: func(c *sym.Config, th bool) {
+					c.ExploreSchedules = true
+					c.MaxPreemptions = 1
+					if th {
+						c.MaxPreemptions = 2
+					}
+				},
+				Bounds: "2 TCP connections x (template + 2 data messages, symbolic values) x {Stop after the streams ended, Stop during traffic}; every interleaving with at most 1 (quick) / 2 (thorough) preemptions"},
+			{Func: "Check_TwoUDPClients", NoNative: true, Reach: []string{"udp-delivered"},
+				Tune: func(c *sym.Config, th bool) {
+					c.ExploreSchedules = true
+					c.MaxPreemptions = 1
+					if th {
+						c.MaxPreemptions = 2
+					}
+				},
+				Bounds: "2 UDP clients x (template + 2 data datagrams) x 3 arrival orders; every interleaving with at most 1 / 2 preemptions"},
+		},
+	},
+	{
 		ID: "C13", Pkg: "./c13", Level: "other", NoNativeBuild: true,
 		Explanation: "SUFFICIENT CONDITION plus bounded schedule enumeration for pairs of operations. (a) What an SMT-based symbolic execution can decide about thread safety is the lock discipline the code relies on: every public operation of AggregationProcess (AggregateMsgByFlowKey with one and two records, ForAllExpiredFlowRecordsDo, ForAllRecordsDo, GetRecords with and without key, GetNumFlows, GetExpiryFromExpirePriorityQueue) is executed symbolically from bounded arbitrary states (0..1 flows quick, 0..2 thorough; symbolic records; deadlines passed or not; failing and succeeding callbacks) so that every feasible path, error paths included, is walked; every load, store and map operation on an object reachable from the process at entry is logged with the set of process mutexes held. The lockset rule is then applied across operations (each may run concurrently with every other and with itself): two accesses to one shared location, at least one a write, not both atomic, without a common lock = VIOLATION; also: a mutex still held at return, a mutex re-acquired while held, unlock of an unlocked mutex. With mutual exclusion trusted this gives atomic operations, hence linearizability with the lock acquisition as linearization point, and reduces 'no lost delta, no double export' to the sequential properties C05/C06. (b) Check_Linearizable runs PAIRS of operations in two goroutines under every interleaving of their synchronisation points (the scheduler choice at each mutex lock/unlock is a decision of the path explorer, bounded by a preemption budget) and compares the outcome with both sequential orders - this catches lost updates that are not data races (state captured under one critical section and used in another). NOT covered: more than two concurrent operations, preemption inside code between synchronisation points (covered by the lockset rule instead), the Go memory model, sync.RWMutex and the race detector are trusted; the worker pool enters only through the fact that every worker runs AggregateMsgByFlowKey.",
 		Assumptions: []string{"cooperative single-threaded execution; interleavings are not explored", "a breach is reported from the interpreter's access log (both access sites named); no native race-detector run is attempted"},
